@@ -419,6 +419,11 @@ func (svr *Server) Serve() error {
 				break
 			}
 		}
+		if err != nil && !errors.Is(err, errUnknownExtendedPacket) {
+			// A malformed or unknown packet must not be dispatched:
+			// it may be nil or only partially decoded. Stop serving.
+			break
+		}
 
 		pktChan <- svr.pktMgr.newOrderedRequest(pkt)
 	}
